@@ -11,12 +11,12 @@
 #define V_SUBREL(r,u,v,bi,bo) ((V_u128)(r) + (V_u128)(v) + (V_u128)(bi) == (V_u128)(u) + ((V_u128)(bo) << 64))
 
 mp_limb_t __gmpn_add_n (mp_ptr rp, mp_srcptr up, mp_srcptr vp, mp_size_t n)
-__CPROVER_requires (1 <= n && n <= V_NMAX && 0 <= gk && gk < n)
+__CPROVER_requires (1 <= n && n <= V_NMAX && 0 <= gk && gk <= V_NMAX)     /* gk >= n: the call promises nothing about positions */
 __CPROVER_requires (V_W_OK (rp, n) && V_R_OK (up, n) && V_R_OK (vp, n))
 __CPROVER_requires (V_SAME_OR_SEPARATE (rp, up, n) && V_SAME_OR_SEPARATE (rp, vp, n))
 __CPROVER_assigns (__CPROVER_object_upto (rp, n * 8), g_ci, g_co)
-__CPROVER_ensures (g_ci <= 1 && g_co <= 1)
-__CPROVER_ensures (V_ADDREL (rp[gk], __CPROVER_old (up[gk]), __CPROVER_old (vp[gk]), g_ci, g_co))
+__CPROVER_ensures (gk < n ==> (g_ci <= 1 && g_co <= 1))
+__CPROVER_ensures (gk < n ==> V_ADDREL (rp[gk], V_OLDSEL (gk < n, up + gk), V_OLDSEL (gk < n, vp + gk), g_ci, g_co))
 __CPROVER_ensures (gk == 0 ==> g_ci == 0)
 __CPROVER_ensures (gk == n - 1 ==> g_co == __CPROVER_return_value)
 __CPROVER_ensures (__CPROVER_return_value <= 1)
@@ -24,12 +24,12 @@ __CPROVER_ensures (__CPROVER_return_value <= 1)
 
 
 mp_limb_t __gmpn_sub_n (mp_ptr rp, mp_srcptr up, mp_srcptr vp, mp_size_t n)
-__CPROVER_requires (1 <= n && n <= V_NMAX && 0 <= gk && gk < n)
+__CPROVER_requires (1 <= n && n <= V_NMAX && 0 <= gk && gk <= V_NMAX)     /* gk >= n: the call promises nothing about positions */
 __CPROVER_requires (V_W_OK (rp, n) && V_R_OK (up, n) && V_R_OK (vp, n))
 __CPROVER_requires (V_SAME_OR_SEPARATE (rp, up, n) && V_SAME_OR_SEPARATE (rp, vp, n))
 __CPROVER_assigns (__CPROVER_object_upto (rp, n * 8), g_ci, g_co)
-__CPROVER_ensures (g_ci <= 1 && g_co <= 1)
-__CPROVER_ensures (V_SUBREL (rp[gk], __CPROVER_old (up[gk]), __CPROVER_old (vp[gk]), g_ci, g_co))
+__CPROVER_ensures (gk < n ==> (g_ci <= 1 && g_co <= 1))
+__CPROVER_ensures (gk < n ==> V_SUBREL (rp[gk], V_OLDSEL (gk < n, up + gk), V_OLDSEL (gk < n, vp + gk), g_ci, g_co))
 __CPROVER_ensures (gk == 0 ==> g_ci == 0)
 __CPROVER_ensures (gk == n - 1 ==> g_co == __CPROVER_return_value)
 __CPROVER_ensures (__CPROVER_return_value <= 1)
@@ -53,10 +53,11 @@ __CPROVER_requires (1 <= n && n <= V_NMAX && V_W_OK (rp, n) && 0 <= gk && gk < n
 __CPROVER_assigns (__CPROVER_object_upto (rp, n * 8))
 __CPROVER_ensures (rp[gk] == 0)
 ;
+long gkc;   /* ghost position for com_n, relative to its own base */
 void __gmpn_com_n (mp_ptr rp, mp_srcptr up, mp_size_t n)
-__CPROVER_requires (1 <= n && n <= V_NMAX && V_W_OK (rp, n) && V_R_OK (up, n) && V_SAME_OR_SEPARATE (rp, up, n) && 0 <= gk && gk < n)
+__CPROVER_requires (1 <= n && n <= V_NMAX && V_W_OK (rp, n) && V_R_OK (up, n) && V_SAME_OR_SEPARATE (rp, up, n) && 0 <= gkc && gkc < n)
 __CPROVER_assigns (__CPROVER_object_upto (rp, n * 8))
-__CPROVER_ensures (rp[gk] == ~__CPROVER_old (up[gk]))
+__CPROVER_ensures (rp[gkc] == ~__CPROVER_old (up[gkc]))
 ;
 
 /* shifts, 1 <= cnt <= 63.  lshift: overlap allowed when rp >= up; rshift: when rp <= up. */
@@ -73,6 +74,86 @@ __CPROVER_requires (V_W_OK (rp, n) && V_R_OK (up, n) && V_SAME_OR_INCR (rp, up, 
 __CPROVER_assigns (__CPROVER_object_upto (rp, n * 8))
 __CPROVER_ensures (rp[gk] == ((__CPROVER_old (up[gk]) >> cnt) | (gk < n - 1 ? __CPROVER_old (up[gk + (gk < n - 1)]) << (64 - cnt) : 0)))
 __CPROVER_ensures (__CPROVER_return_value == __CPROVER_old (up[0]) << (64 - cnt))
+;
+
+/* ---- comparison.  Ghost output g_hd: highest index where the operands differ (-1: none).
+   Caller-chosen gj: "every position above g_hd is equal" is delivered at gj (forall-intro). */
+long g_hd;
+int __gmpn_cmp (mp_srcptr xp, mp_srcptr yp, mp_size_t n)
+__CPROVER_requires (0 <= n && n <= V_NMAX && V_R_OK (xp, n) && V_R_OK (yp, n))
+__CPROVER_assigns (g_hd)
+__CPROVER_ensures (__CPROVER_return_value == 0 || __CPROVER_return_value == 1 || __CPROVER_return_value == -1)
+__CPROVER_ensures (-1 <= g_hd && g_hd < n && ((g_hd == -1) == (__CPROVER_return_value == 0)))
+__CPROVER_ensures (g_hd >= 0 ==> (xp[g_hd] != yp[g_hd] && ((xp[g_hd] > yp[g_hd]) == (__CPROVER_return_value > 0))))
+__CPROVER_ensures ((g_hd < gj && gj < n) ==> xp[gj] == yp[gj])
+;
+/* zero_p: 1 iff every limb is zero.  g_hd: an index holding a non-zero limb when the answer is 0 */
+int __gmpn_zero_p (mp_srcptr p, mp_size_t n)
+__CPROVER_requires (1 <= n && n <= V_NMAX && V_R_OK (p, n))
+__CPROVER_assigns (g_hd)
+__CPROVER_ensures (__CPROVER_return_value == 0 || __CPROVER_return_value == 1)
+__CPROVER_ensures (__CPROVER_return_value == 0 ==> (0 <= g_hd && g_hd < n && p[g_hd] != 0))
+__CPROVER_ensures ((__CPROVER_return_value == 1 && 0 <= gj && gj < n) ==> p[gj] == 0)
+;
+
+/* ---- add_1 / sub_1: chain with v at position 0 and 0 above */
+mp_limb_t __gmpn_add_1 (mp_ptr rp, mp_srcptr up, mp_size_t n, mp_limb_t v)
+__CPROVER_requires (1 <= n && n <= V_NMAX && 0 <= gk && gk < n)
+__CPROVER_requires (V_W_OK (rp, n) && V_R_OK (up, n) && V_SAME_OR_SEPARATE (rp, up, n))
+__CPROVER_assigns (__CPROVER_object_upto (rp, n * 8), g_ci, g_co)
+__CPROVER_ensures (g_ci <= 1 && g_co <= 1)
+__CPROVER_ensures (V_ADDREL (rp[gk], __CPROVER_old (up[gk]), (gk == 0 ? v : 0), g_ci, g_co))
+__CPROVER_ensures (gk == 0 ==> g_ci == 0)
+__CPROVER_ensures (gk == n - 1 ==> g_co == __CPROVER_return_value)
+__CPROVER_ensures (__CPROVER_return_value <= 1)
+;
+mp_limb_t __gmpn_sub_1 (mp_ptr rp, mp_srcptr up, mp_size_t n, mp_limb_t v)
+__CPROVER_requires (1 <= n && n <= V_NMAX && 0 <= gk && gk < n)
+__CPROVER_requires (V_W_OK (rp, n) && V_R_OK (up, n) && V_SAME_OR_SEPARATE (rp, up, n))
+__CPROVER_assigns (__CPROVER_object_upto (rp, n * 8), g_ci, g_co)
+__CPROVER_ensures (g_ci <= 1 && g_co <= 1)
+__CPROVER_ensures (V_SUBREL (rp[gk], __CPROVER_old (up[gk]), (gk == 0 ? v : 0), g_ci, g_co))
+__CPROVER_ensures (gk == 0 ==> g_ci == 0)
+__CPROVER_ensures (gk == n - 1 ==> g_co == __CPROVER_return_value)
+__CPROVER_ensures (__CPROVER_return_value <= 1)
+;
+
+/* ---- mpn_add / mpn_sub: {xp,xn} op {yp,yn}, xn >= yn >= 0, y zero-extended */
+mp_limb_t __gmpn_add (mp_ptr wp, mp_srcptr xp, mp_size_t xn, mp_srcptr yp, mp_size_t yn)
+__CPROVER_requires (0 <= yn && yn <= xn && xn <= V_NMAX && 0 <= gk && gk <= V_NMAX)
+__CPROVER_requires (V_W_OK (wp, xn) && V_R_OK (xp, xn) && V_R_OK (yp, yn))
+__CPROVER_requires (xn == 0 || (V_SAME_OR_SEPARATE (wp, xp, xn) && (yn == 0 || wp == yp || V_SEPARATE (wp, xn, yp, yn))))
+__CPROVER_assigns (xn > 0: __CPROVER_object_upto (wp, xn * 8); g_ci, g_co)
+__CPROVER_ensures (gk < xn ==> (g_ci <= 1 && g_co <= 1))
+__CPROVER_ensures (gk < xn ==> V_ADDREL (wp[gk], V_OLDSEL (gk < xn, xp + gk), V_OLDSEL (gk < yn, yp + gk), g_ci, g_co))
+__CPROVER_ensures ((gk == 0 && gk < xn) ==> g_ci == 0)
+__CPROVER_ensures (gk == xn - 1 ==> g_co == __CPROVER_return_value)
+__CPROVER_ensures (xn == 0 ==> __CPROVER_return_value == 0)
+__CPROVER_ensures (__CPROVER_return_value <= 1)
+;
+mp_limb_t __gmpn_sub (mp_ptr wp, mp_srcptr xp, mp_size_t xn, mp_srcptr yp, mp_size_t yn)
+__CPROVER_requires (0 <= yn && yn <= xn && xn <= V_NMAX && 0 <= gk && gk <= V_NMAX)
+__CPROVER_requires (V_W_OK (wp, xn) && V_R_OK (xp, xn) && V_R_OK (yp, yn))
+__CPROVER_requires (xn == 0 || (V_SAME_OR_SEPARATE (wp, xp, xn) && (yn == 0 || wp == yp || V_SEPARATE (wp, xn, yp, yn))))
+__CPROVER_assigns (xn > 0: __CPROVER_object_upto (wp, xn * 8); g_ci, g_co)
+__CPROVER_ensures (gk < xn ==> (g_ci <= 1 && g_co <= 1))
+__CPROVER_ensures (gk < xn ==> V_SUBREL (wp[gk], V_OLDSEL (gk < xn, xp + gk), V_OLDSEL (gk < yn, yp + gk), g_ci, g_co))
+__CPROVER_ensures ((gk == 0 && gk < xn) ==> g_ci == 0)
+__CPROVER_ensures (gk == xn - 1 ==> g_co == __CPROVER_return_value)
+__CPROVER_ensures (xn == 0 ==> __CPROVER_return_value == 0)
+__CPROVER_ensures (__CPROVER_return_value <= 1)
+;
+
+/* ---- neg: rp = 0 - up as a borrow chain; returns the final borrow (1 iff up != 0) */
+mp_limb_t __gmpn_neg_n (mp_ptr rp, mp_srcptr up, mp_size_t n)
+__CPROVER_requires (1 <= n && n <= V_NMAX && 0 <= gk && gk < n)
+__CPROVER_requires (V_W_OK (rp, n) && V_R_OK (up, n) && V_SAME_OR_SEPARATE (rp, up, n))
+__CPROVER_assigns (__CPROVER_object_upto (rp, n * 8), g_ci, g_co, gkc)
+__CPROVER_ensures (g_ci <= 1 && g_co <= 1)
+__CPROVER_ensures (V_SUBREL (rp[gk], 0, __CPROVER_old (up[gk]), g_ci, g_co))
+__CPROVER_ensures (gk == 0 ==> g_ci == 0)
+__CPROVER_ensures (gk == n - 1 ==> g_co == __CPROVER_return_value)
+__CPROVER_ensures (__CPROVER_return_value <= 1)
 ;
 
 #endif
